@@ -20,8 +20,9 @@ theorem C37_all : ∀ cfg ∈ configTable, connect cfg = .ok := by
   decide +kernel
 
 /-- the table has the expected size: 5 secured policies × 2 modes × (4 + 4 + 9 + 9 + 9
-    key-size pairs) × 2 token types + 2 rows for policy None -/
-theorem C37_table_size : configTable.length = 142 := by
+    key-size pairs) × 2 token types = 140, + 2 anonymous rows for policy None, + 26 rows
+    username-over-the-None-endpoint (13 (secured policy, server key) pairs × client key absent / 2048) -/
+theorem C37_table_size : configTable.length = 168 := by
   decide +kernel
 
 /-- the policy index means the same policy in both generated tables -/
@@ -41,7 +42,7 @@ theorem C37_table_complete :
       | some r =>
         [1, 2, 3].all fun m => keySizes.all fun cb => keySizes.all fun sb =>
           [Auth.anonymous, Auth.username].all fun a =>
-            (configTable.contains (⟨i, m, cb, sb, a⟩ : Config)) ==
+            (configTable.contains (⟨i, m, cb, sb, a, none⟩ : Config)) ==
               (p.modes.contains m && inRange r cb && inRange r sb)) = true := by
   decide +kernel
 
@@ -52,7 +53,30 @@ theorem C37_table_sound :
       match policyInfo cfg.pol with
       | none => false
       | some p => p.modes.contains cfg.mode &&
-          (cfg.mode == 1 || (keyAllowed p.name cfg.cbits && keyAllowed p.name cfg.sbits))) = true := by
+          (cfg.mode == 1 || (keyAllowed p.name cfg.cbits && keyAllowed p.name cfg.sbits)) &&
+          (match cfg.extra with
+           | none => true
+           | some j => cfg.mode == 1 && cfg.auth == .username && keyAllowed (polName j) cfg.sbits && !polIsNone j)) = true := by
+  decide +kernel
+
+/-- username over the None endpoint: for every secured policy `q` and every
+    committed server key size, the row is in the table iff `q` allows that key
+    size (client key absent or 2048 bits) -/
+theorem C37_table_complete_none_username :
+    ((enumFrom 0 Gen.interopPolicies).all fun (i, p) => !p.isNone ||
+      ((enumFrom 0 Gen.interopPolicies).all fun (j, q) => q.isNone ||
+        keySizes.all fun sb => [0, 2048].all fun cb =>
+          configTable.contains (⟨i, 1, cb, sb, .username, some j⟩ : Config) == keyAllowed q.name sb)) = true := by
+  decide +kernel
+
+/-- what a server enabling None together with a secured policy advertises on
+    its None endpoint: the anonymous token and the username token under the
+    secured policy -/
+theorem C37_tokens_none_endpoint :
+    ((enumFrom 0 Gen.interopPolicies).all fun (i, p) => !p.isNone ||
+      ((enumFrom 0 Gen.interopPolicies).all fun (j, q) => q.isNone ||
+        ((serverEndpoints [(i, 1), (j, 3)] [.anonymous, .username]).head?.map (·.tokens)) ==
+          some [⟨.anonymous, none⟩, ⟨.username, some j⟩])) = true := by
   decide +kernel
 
 /-- what a server enabling one (policy, mode) with both token types advertises:
@@ -86,11 +110,11 @@ theorem C37_opn_fits_any_cert (H n sigLen : Int) (hH : 0 ≤ H) (hH2 : H ≤ 400
     simp [asymSecure] at hpos ⊢ <;> go_divmod <;> (try split) <;> go_divmod <;> omega
 
 /-- non-vacuity: the largest configuration -/
-example : polName 1 = "Aes256_Sha256_RsaPss" ∧ connect ⟨1, 3, 4096, 4096, .username⟩ = .ok ∧
-    (opnRequest ⟨1, 3, 4096, 4096, .username⟩).isSome = true := by
+example : polName 1 = "Aes256_Sha256_RsaPss" ∧ connect ⟨1, 3, 4096, 4096, .username, none⟩ = .ok ∧
+    (opnRequest ⟨1, 3, 4096, 4096, .username, none⟩).isSome = true := by
   decide +kernel
 
 /-- a key outside the range is refused by the model as well -/
-example : polName 3 = "Basic256" ∧ connect ⟨3, 3, 4096, 2048, .anonymous⟩ = .clientRefusesKeys := by decide +kernel
+example : polName 3 = "Basic256" ∧ connect ⟨3, 3, 4096, 2048, .anonymous, none⟩ = .clientRefusesKeys := by decide +kernel
 
 end Opcua.Props.C37
